@@ -4,6 +4,7 @@ package main
 // embedded unexported types, name clashes between promoted fields) plus carriers and tag options in one place.
 
 import (
+	"fmt"
 	"github.com/Tnze/go-mc/nbt"
 	"github.com/Tnze/go-mc/nbt/dynbt"
 )
@@ -63,7 +64,7 @@ type C02EmbDup struct {
 // an embedded struct with a tag name is a field of its own, not expanded
 type C02EmbTagged struct {
 	C02Inner `nbt:"inner"`
-	Q       int8
+	Q        int8
 }
 
 type C02Deep struct {
@@ -73,18 +74,18 @@ type C02Deep struct {
 }
 
 type C02Tags struct {
-	A int32   `nbt:"name,omitempty"`
-	B string  `nbt:",omitempty"`
-	C int8    `nbt:"-"`
-	D int8    `nbt:"-,"`
-	E int16   `nbt:"e" nbtkey:"key e"`
-	F []int32 `nbt:"f" nbt_type:"list"`
-	G []byte  `nbt:"g,list"`
-	H []int64 `nbt:"h,omitempty,list"`
-	I float64 `nbt:"i,omitempty"`
-	J *int32  `nbt:"j,omitempty"`
-	K any     `nbt:"k,omitempty"`
-	L [2]int8 `nbt:"l,omitempty"`
+	A int32           `nbt:"name,omitempty"`
+	B string          `nbt:",omitempty"`
+	C int8            `nbt:"-"`
+	D int8            `nbt:"-,"`
+	E int16           `nbt:"e" nbtkey:"key e"`
+	F []int32         `nbt:"f" nbt_type:"list"`
+	G []byte          `nbt:"g,list"`
+	H []int64         `nbt:"h,omitempty,list"`
+	I float64         `nbt:"i,omitempty"`
+	J *int32          `nbt:"j,omitempty"`
+	K any             `nbt:"k,omitempty"`
+	L [2]int8         `nbt:"l,omitempty"`
 	M map[string]int8 `nbt:"m,omitempty"`
 	u int32
 	N bool `nbt:"n,omitempty"`
@@ -142,11 +143,11 @@ type C02Q0 struct {
 
 // byte-like slices that are not []byte: decoded in place when the old capacity suffices
 type C02ByteSlices struct {
-	I []int8   `nbt:"i"`
-	B []bool   `nbt:"b"`
-	N []c02I8  `nbt:"n"`
-	U []byte   `nbt:"u"`
-	A [2]int8  `nbt:"a"`
+	I []int8            `nbt:"i"`
+	B []bool            `nbt:"b"`
+	N []c02I8           `nbt:"n"`
+	U []byte            `nbt:"u"`
+	A [2]int8           `nbt:"a"`
 	M map[string][]int8 `nbt:"m"`
 }
 
@@ -154,6 +155,11 @@ type c02F32 float32
 type c02I8 int8
 type c02Str string
 type c02U64 uint64
+
+// a string type with a method that is not encoding.TextMarshaler: still a string
+type c02StrM string
+
+func (c02StrM) Valid() bool { return true }
 
 // named scalar types behave like their kinds
 type C02NamedScalars struct {
@@ -163,7 +169,25 @@ type C02NamedScalars struct {
 	U  []c02U64
 	M  map[c02Str]c02I8
 	FA [2]c02F32
+	SM c02StrM
+	LM []c02StrM
+	MM map[string]c02StrM
 }
+
+// types outside the universe of the model (c02.odd): recursive pointer types, maps with other keys than strings
+type c02Node struct {
+	V    int32
+	Next *c02Node
+}
+type c02NodeOE struct {
+	V    int32
+	Next *c02NodeOE `nbt:",omitempty"`
+}
+type c02RecA struct{ B *c02RecB }
+type c02RecB struct{ A [2]c02RecA }
+type c02Key struct{ X, Z int8 }
+
+func (k c02Key) String() string { return fmt.Sprintf("%d,%d", k.X, k.Z) }
 
 func init() {
 	for _, v := range []any{C02Inner{}, C02Other{}, c02hidden{}, C02EmbVal{}, C02EmbPtr{}, C02EmbHidden{}, C02EmbHiddenPtr{},
